@@ -157,6 +157,62 @@ def check_normalisation_axes(p, report, rule):
         raise AnalysisError("ext_confusion_matrix: no normalisation site found")
 
 
+ELEMENTWISE = {"transform", "asarray", "asanyarray", "array", "astype", "copy", "check_array", "column_or_1d", "float", "int"}
+
+
+def _row_chain(e):
+    """Strip element-wise wrappers; return (root expression text, [row selectors as text]) of `root[s1][s2]...`"""
+    sels = []
+    while True:
+        if isinstance(e, ast.Call):
+            fn = (c01.callname(e) or "").split(".")[-1]
+            if fn in ELEMENTWISE:
+                if isinstance(e.func, ast.Attribute) and not e.args and fn in ("astype", "copy"):
+                    e = e.func.value
+                    continue
+                if e.args:
+                    e = e.args[0]
+                    continue
+                if isinstance(e.func, ast.Attribute):
+                    e = e.func.value
+                    continue
+            return None
+        if isinstance(e, ast.Subscript):
+            sels.append(ast.unparse(e.slice).replace(" ", ""))
+            e = e.value
+            continue
+        if isinstance(e, (ast.Name, ast.Attribute)):
+            return ast.unparse(e), list(reversed(sels))
+        return None
+
+
+def check_vote_rows_aligned(p, report):
+    mv = None
+    for f in p.all_functions():
+        if f.name == "majority_vote" and f.file.endswith("utils/_aggregation.py"):
+            mv = f
+    if mv is None:
+        raise AnalysisError("majority_vote vanished")
+    node = inline_temporaries(mv.node)
+    calls = [c for c in ast.walk(node) if isinstance(c, ast.Call) and c01.callname(c) == "compute_vote_vectors"]
+    if not calls:
+        raise AnalysisError("majority_vote no longer calls compute_vote_vectors")
+    for c in calls:
+        ya = c.args[0] if c.args else next((k.value for k in c.keywords if k.arg == "y"), None)
+        wa = c.args[1] if len(c.args) > 1 else next((k.value for k in c.keywords if k.arg == "w"), None)
+        if ya is None:
+            continue
+        cy = _row_chain(ya)
+        cw = _row_chain(wa) if wa is not None else ("<none>", [])
+        ok = cy is not None and cw is not None and (wa is None or cy[1] == cw[1])
+        report.add("R17.10", mv.qual, f"`{norm_stmt(c, 60)}` gets aligned label and weight rows", f"{mv.file}:{c.lineno}", ok,
+                   detail=f"rows of {cy[0]} and of {cw[0]} selected by {cy[1] or 'nothing'}" if ok else
+                   f"labels are `{ast.unparse(ya)[:60]}`, weights `{ast.unparse(wa)[:60] if wa is not None else None}`: "
+                   f"the two are not the same row selection of the inputs (a merge / de-duplication / re-ordering of the label "
+                   f"rows gives several samples the weights of one of them, so a sample's own weights no longer decide its "
+                   f"vote)")
+
+
 def run(p, report, tier):
     report.rule("R17.1", "ext_confusion_matrix: on every feasible path through the per-annotator loop body on which the "
                 "annotator's confusion counts are computed, the output slice conf_matrices[a] is stored (path facts "
@@ -376,6 +432,15 @@ def run(p, report, tier):
     for o in sub16.obligations:
         if o.rule == "R16.2":
             report.add("R17.6", o.entity, o.construct, o.loc, o.ok, detail=o.detail)
+    # ---------------- round 6
+    report.rule("R17.9", "a class with MAXIMAL vote: the winner is taken by rand_argmax, whose tie mask is an exact equality "
+                "with the NaN-aware optimum (a tolerance lets a class with fewer votes win; shared with C18 R18.1)", floor=4)
+    from . import c18 as _c18
+    _c18.check_argmax_primitives(p, report, "R17.9")
+    report.rule("R17.10", "every sample votes with its own weights: the label rows and the weight rows that majority_vote hands "
+                "to compute_vote_vectors are the SAME row selection of y and w (element-wise re-encodings apart); rows are "
+                "never merged, re-ordered or de-duplicated on one side", floor=1)
+    check_vote_rows_aligned(p, report)
     report.assumptions += ["sklearn.metrics.confusion_matrix and np.bincount are trusted to count",
                            "equality with the counting specification as numbers is not decided"]
 
